@@ -24,6 +24,10 @@ Fixpoint dz_eval (cs : list Z) (x : Z) : Z :=
 
 Definition dz_sum (l : list Z) : Z := fold_right (fun a acc => (a + acc) mod p) 0 l.
 
+(* GenerateSplitKeys: the serialized secret (private key bytes) of every split key IS its scalar;
+   the keys are the n-1 drawn ones followed by primary - their sum *)
+Definition dz_split (sk : Z) (ks : list Z) : list Z := ks ++ [(sk - dz_sum ks) mod p].
+
 Definition dz_share (cs : list Z) (i : Z) : Z := dz_eval cs i.
 
 (* with g2 = 1 the public polynomial is the coefficient list itself *)
